@@ -327,19 +327,30 @@ impl Ast {
             Ast::Literal(ref value) => fmt::Display::fmt(value, formatter),
             Ast::Column(ref name) => formatter.write_str(name.as_str()),
             Ast::UnOp(op, ref arg) => {
+                let op_prec = op.precedence();
+                if op_prec < parent_prec {
+                    formatter.write_str("(")?;
+                }
                 match op {
                     UnOp::Neg => formatter.write_str("-")?,
                     UnOp::BitNot => formatter.write_str("~")?,
                     UnOp::BoolNot => formatter.write_str("NOT ")?,
                 }
-                arg.format_with_precedence(formatter, 10)
+                arg.format_with_precedence(formatter, op_prec)?;
+                if op_prec < parent_prec {
+                    formatter.write_str(")")?;
+                }
+                Ok(())
             }
             Ast::BinOp(op, ref arg1, ref arg2) => {
                 let op_prec = op.precedence();
                 if op_prec < parent_prec {
                     formatter.write_str("(")?;
                 }
-                arg1.format_with_precedence(formatter, op_prec)?;
+                arg1.format_with_precedence(
+                    formatter,
+                    op.left_operand_precedence(),
+                )?;
                 match op {
                     BinOp::Eq => formatter.write_str(" = ")?,
                     BinOp::Ne => formatter.write_str(" != ")?,
@@ -421,6 +432,17 @@ impl UnOp {
                 _ => Value::Null,
             },
             UnOp::BoolNot => Value::from_bool(!arg.to_bool()),
+        }
+    }
+
+    /// Precedence levels follow the query grammar: OR is 1, AND is 2, NOT is
+    /// 3, the binary operators are 4 through 10 (see `BinOp::precedence`),
+    /// and unary minus and `~` bind tightest.
+    fn precedence(&self) -> i32 {
+        match *self {
+            UnOp::Neg => 11,
+            UnOp::BitNot => 11,
+            UnOp::BoolNot => 3,
         }
     }
 }
@@ -527,21 +549,45 @@ impl BinOp {
 
     fn precedence(&self) -> i32 {
         match *self {
-            BinOp::Eq => 3,
-            BinOp::Ne => 3,
-            BinOp::Lt => 3,
-            BinOp::Le => 3,
-            BinOp::Gt => 3,
-            BinOp::Ge => 3,
-            BinOp::Add => 8,
-            BinOp::Sub => 8,
-            BinOp::Mul => 9,
-            BinOp::Div => 9,
-            BinOp::BitAnd => 6,
-            BinOp::BitOr => 4,
-            BinOp::BitXor => 5,
-            BinOp::Shl => 7,
-            BinOp::Shr => 7,
+            BinOp::Eq => 4,
+            BinOp::Ne => 4,
+            BinOp::Lt => 4,
+            BinOp::Le => 4,
+            BinOp::Gt => 4,
+            BinOp::Ge => 4,
+            BinOp::Add => 9,
+            BinOp::Sub => 9,
+            BinOp::Mul => 10,
+            BinOp::Div => 10,
+            BinOp::BitAnd => 7,
+            BinOp::BitOr => 5,
+            BinOp::BitXor => 6,
+            BinOp::Shl => 8,
+            BinOp::Shr => 8,
+        }
+    }
+
+    /// The minimum precedence the left operand needs in order to be printed
+    /// without parentheses.  Comparison and shift operators do not chain in
+    /// the query grammar (`a < b < c` is not a valid expression), so their
+    /// left operand must bind strictly tighter, just like the right one.
+    fn left_operand_precedence(&self) -> i32 {
+        match *self {
+            BinOp::Eq => 5,
+            BinOp::Ne => 5,
+            BinOp::Lt => 5,
+            BinOp::Le => 5,
+            BinOp::Gt => 5,
+            BinOp::Ge => 5,
+            BinOp::Add => 9,
+            BinOp::Sub => 9,
+            BinOp::Mul => 10,
+            BinOp::Div => 10,
+            BinOp::BitAnd => 7,
+            BinOp::BitOr => 5,
+            BinOp::BitXor => 6,
+            BinOp::Shl => 9,
+            BinOp::Shr => 9,
         }
     }
 }
